@@ -122,3 +122,20 @@ package client
 //@ func (c *Client) CallProgressive
 //@   props C17
 //@   requires c != nil && !isnil(ctx) && sendProg != nil
+
+// Once results may have been handed to the progress goroutine (the wait for
+// the reply has started), Call does not return before that goroutine has
+// finished: the progress handler never runs after Call has returned.
+//@ func (c *Client) Call
+//@   props C16 C17
+//@   requires c != nil && !isnil(ctx)
+//@   callcount waitForReplyWithCancel arg2
+//@   returnsite : [progress-handler-finished-before-return] progDone != nil && calls(waitForReplyWithCancel, id) > old(calls(waitForReplyWithCancel, id)) ==> recvcount(progDone) > old(recvcount(progDone))
+
+//@ func (c *Client) SubscribeChan
+//@   props C17
+//@   requires c != nil && events != nil
+
+//@ closure (c *Client) SubscribeChan 1
+//@   props C17
+//@   captures events != nil
